@@ -8,6 +8,8 @@ CONSTANTS
   Fails = {"temp", "perm", "unspec"}
   MaxFaults = 1000
   MaxCmds = 1000
+  MaxEnv = 0
+  EnvPlan = "any"
   Allowed = {"*"}
   Devs = {"DataFailNoAbort", "CommitStopsAtFirst", "LmtpStatusKey", "EhloNoLogout", "MailRawSender", "NestedMail", "LmtpCommitErrLost", "LmtpCommitAfterReject"}
   Gen = FALSE
